@@ -33,86 +33,108 @@ func genC18(r *Rng, tier string, o *Out) {
 			panic(err)
 		}
 		nops := r.Range(1, 40)
-		allowRewind := r.Chance(8) // a minority of histories may contain rewinding discards
+		done := 0 // ops completed (their tokens are in sb)
+		cur := "" // the op being executed, for a panic report
+		panicked := ""
 		var sb strings.Builder
-		fmt.Fprintf(&sb, "cap %d ops %d", capv, nops)
-		next := byte(r.Intn(256))
-		written, readpos := 0, 0 // logical positions, to steer towards full/empty and guard rewinds
-		for k := 0; k < nops; k++ {
-			switch c := r.Intn(100); {
-			case c < 40: // write
-				if wr.BytesWriteable() < 0 {
-					fmt.Fprintf(&sb, " D 1") // only after a rewind: re-empty the buffer instead
-					rd.DiscardStride(1)
-					readpos = written
-					continue
+		func() {
+			defer func() {
+				if e := recover(); e != nil {
+					panicked = strings.ReplaceAll(cur, " ", "_")
 				}
-				var ln int
-				switch r.Intn(4) {
-				case 0:
-					ln = wr.BytesWriteable() // exactly fill
-				case 1:
-					ln = wr.BytesWriteable() + r.Range(1, 5) // overfill
-				default:
-					ln = r.Range(0, capv)
-				}
-				d := make([]byte, ln)
-				for j := range d {
-					d[j] = next
-					next = next*31 + 7
-				}
-				nw, _ := wr.Write(d)
-				written += nw
-				fmt.Fprintf(&sb, " W %s %d", hexs(d), nw)
-			case c < 65: // read n
-				var sz int
-				switch r.Intn(5) {
-				case 0:
-					sz = rd.BytesReadable() // exactly empty it
-				case 1:
-					sz = r.Range(-2, 0)
-				case 2:
-					sz = capv + r.Range(0, 10)
-				default:
-					sz = r.Range(1, capv)
-				}
-				d, _ := rd.Read(sz)
-				cp := append([]byte{}, d...)
-				readpos += len(cp)
-				fmt.Fprintf(&sb, " R %d %s", sz, hexs(cp))
-			case c < 80: // read multiple of k (k>=1; 0 divides by zero in the code: excluded)
-				kk := r.Pick(1, 2, 3, 4, 8, capv-1, capv, capv+1)
-				if kk < 1 {
-					kk = 1
-				}
-				d, err := rd.ReadMultipleOf(kk)
-				if err != nil {
-					fmt.Fprintf(&sb, " M %d E", kk)
-				} else {
+			}()
+			allowRewind := r.Chance(8) // a minority of histories may contain rewinding discards
+			next := byte(r.Intn(256))
+			written, readpos := 0, 0 // logical positions, to steer towards full/empty and guard rewinds
+			for k := 0; k < nops; k++ {
+				switch c := r.Intn(100); {
+				case c < 40: // write
+					if wr.BytesWriteable() < 0 {
+						cur = "D 1"
+						rd.DiscardStride(1)
+						fmt.Fprintf(&sb, " D 1") // only after a rewind: re-empty the buffer instead
+						readpos = written
+						done++
+						continue
+					}
+					var ln int
+					switch r.Intn(4) {
+					case 0:
+						ln = wr.BytesWriteable() // exactly fill
+					case 1:
+						ln = wr.BytesWriteable() + r.Range(1, 5) // overfill
+					default:
+						ln = r.Range(0, capv)
+					}
+					d := make([]byte, ln)
+					for j := range d {
+						d[j] = next
+						next = next*31 + 7
+					}
+					cur = fmt.Sprintf("W %d", len(d))
+					nw, _ := wr.Write(d)
+					written += nw
+					fmt.Fprintf(&sb, " W %s %d", hexs(d), nw)
+				case c < 65: // read n
+					var sz int
+					switch r.Intn(5) {
+					case 0:
+						sz = rd.BytesReadable() // exactly empty it
+					case 1:
+						sz = r.Range(-2, 0)
+					case 2:
+						sz = capv + r.Range(0, 10)
+					default:
+						sz = r.Range(1, capv)
+					}
+					cur = fmt.Sprintf("R %d", sz)
+					d, _ := rd.Read(sz)
 					cp := append([]byte{}, d...)
 					readpos += len(cp)
-					fmt.Fprintf(&sb, " M %d %s", kk, hexs(cp))
+					fmt.Fprintf(&sb, " R %d %s", sz, hexs(cp))
+				case c < 80: // read multiple of k (k>=1; 0 divides by zero in the code: excluded)
+					kk := r.Pick(1, 2, 3, 4, 8, capv-1, capv, capv+1)
+					if kk < 1 {
+						kk = 1
+					}
+					cur = fmt.Sprintf("M %d", kk)
+					d, err := rd.ReadMultipleOf(kk)
+					if err != nil {
+						fmt.Fprintf(&sb, " M %d E", kk)
+					} else {
+						cp := append([]byte{}, d...)
+						readpos += len(cp)
+						fmt.Fprintf(&sb, " M %d %s", kk, hexs(cp))
+					}
+				case c < 90: // read all
+					cur = "A"
+					d, _ := rd.ReadAll()
+					cp := append([]byte{}, d...)
+					readpos += len(cp)
+					fmt.Fprintf(&sb, " A %s", hexs(cp))
+				default: // discard to stride (k>=1)
+					kk := r.Pick(1, 2, 3, 4, 8, 16)
+					np := written - written%kk
+					if np < readpos && !allowRewind {
+						kk = 1
+						np = written
+					}
+					cur = fmt.Sprintf("D %d", kk)
+					rd.DiscardStride(uint64(kk))
+					readpos = np
+					fmt.Fprintf(&sb, " D %d", kk)
 				}
-			case c < 90: // read all
-				d, _ := rd.ReadAll()
-				cp := append([]byte{}, d...)
-				readpos += len(cp)
-				fmt.Fprintf(&sb, " A %s", hexs(cp))
-			default: // discard to stride (k>=1)
-				kk := r.Pick(1, 2, 3, 4, 8, 16)
-				np := written - written%kk
-				if np < readpos && !allowRewind {
-					kk = 1
-					np = written
-				}
-				rd.DiscardStride(uint64(kk))
-				readpos = np
-				fmt.Fprintf(&sb, " D %d", kk)
+				done++
 			}
-		}
+		}()
 		rd.Close()
 		wr.Close()
 		wr.Unlink()
-		o.Case("%s", sb.String())
+		if panicked != "" {
+			// a panic inside the ring buffer is an observed output: the ops completed so far, then PANIC <op>
+			o.Case("cap %d ops %d%s PANIC %s", capv, done, sb.String(), panicked)
+		} else {
+			o.Case("cap %d ops %d%s", capv, done, sb.String())
+		}
 	}
 }
